@@ -97,12 +97,23 @@ def _check_struct(prop, txt, st, cls, node, rng, fail, nvals):
                 fail('endian-relation', txt, v, 'little %s big %s' % (lo.hex(), hi.hex()))
 
 
+PY_PROBES = [
+    ('YQ0', [('plain', 'u8', 0), ('limited', 'U4', 3), ('plain', 'u8', 0)]),
+    ('YQ1', [('limited', 'U4', 2), ('limited', 'U8', 2), ('plain', 'u16', 0)]),
+    ('YQ2', [('limited', 'F16', 3), ('limited', 'FO', 2), ('plain', 'U4', 0)]),
+]
+
+
 def run(prop, seed, tier, only=None):
     rng = F.rng_for(seed, 'py_codec/' + prop)
     count = 160 if tier == 'quick' else 2500
     structs = F.sample_structs(rng, count, 4, with_floats=False)
     if tier != 'quick':
         structs += F.all_structs(2)
+    # deterministic part: every member kind once (the C++ probes), and limited arrays of elements whose default value is
+    # not all-zero bytes (a union whose first discriminator is 1; a struct / union holding one) -- unused slots are zeros
+    structs += [F.build_struct('Y' + n, ks) for n, ks in F.CXX_PROBES]
+    structs += [F.build_struct(n, ks) for n, ks in PY_PROBES]
     unions = [F.build_union('UU%d' % i, [rng.choice(F.FIXED_TYPES) for _ in range(rng.randint(1, 4))])
               for i in range(12 if tier == 'quick' else 100)] + F.all_unions()
     failures, cases, distinct = [], [0], set()
